@@ -116,29 +116,9 @@ def lean_theorems(run, prop, filename, theorems):
 
 
 def model_replay(contracts_module, o):
-    """
-    Replay of a refuted E1 obligation's counter-model on the real code (CPython), where the contract's shape allows it:
-    block contracts over strings / access paths, whole-function contracts over strings, tuples and records.
-    -> failing-input dict (contract, what was run, observed result, failed ensures) or None
-    """
-    import importlib
-
+    """Replay of a refuted E1 obligation's counter-model on the real code (see cddvc.replay_block.replay_any)"""
     from cddvc import replay_block
 
-    if not o.get("model"):
-        return None
-    C = importlib.import_module(contracts_module)
-    c = next((c_ for c_ in C.CONTRACTS if "/%s/" % c_.qual in o["name"]), None)
-    if c is None or c.trusted:
-        return None
-    if c.block is not None:
-        r = replay_block.replay(c, o["model"])
-        ok = r and r.get("requires_hold") and (r.get("failed_ensures") or r.get("block_raised"))
-        return {"contract": c.qual, "counterexample replayed on the real statements (CPython)": r} if ok else None
-    r = replay_block.replay_function(c, o["model"])
-    if r and r.get("requires_hold") and r.get("failed_ensures"):
-        return {"contract": c.qual, "counterexample replayed on the real function (CPython)": r}
-    r = replay_block.replay_function_records(c, o["model"])
-    if r and r.get("requires_hold") and r.get("failed_ensures"):
-        return {"contract": c.qual, "counterexample replayed on the real function (CPython; uninterpreted values searched)": r}
-    return None
+    if o.get("replayed") is not None:
+        return o["replayed"]
+    return replay_block.replay_any(contracts_module, o)
